@@ -12,8 +12,29 @@ identifiers and the symbolic names.
 namespace C16
 open Model.Rev Spec.Rev Lemmas.Rev
 
-/-- a plain identifier: no `@`, not one of the symbolic names -/
-def Plain (s : String) : Prop := '@' ∉ s.toList ∧ s ≠ "heads" ∧ s ≠ "head" ∧ s ≠ "base"
+/-- a plain identifier: no `@`, not one of the symbolic names, not a bare negative number
+    (`get_revisions("-2")` means "two below the heads") -/
+def Plain (s : String) : Prop :=
+  '@' ∉ s.toList ∧ s ≠ "heads" ∧ s ≠ "head" ∧ s ≠ "base" ∧ negInt? s = none
+
+/-- ids of a loaded history contain no `-`, so they are never read as a negative number -/
+theorem negInt_none_of_legal (s : String) (h : ∀ c ∈ s.toList, c ∉ illegalChars) : negInt? s = none := by
+  unfold negInt?
+  split
+  · rename_i ds heq
+    exact absurd (by decide : '-' ∈ illegalChars) (h '-' (by rw [heq]; exact List.mem_cons_self))
+  · rfl
+
+theorem load_ids_legal {h : Hist} {o : LoadOpts} {m : LMap} (hl : load h o = .ok m) :
+    ∀ i ∈ m.ids, negInt? i = none := by
+  obtain ⟨m1, lk, h1, hrevs, _, _, _, hids, _⟩ := load_graph hl
+  intro i hi
+  rw [hids] at hi
+  have hids1 : m1.ids = h.map (·.id) := by
+    simp [LMap.ids, hrevs, phase1Revs, List.map_map, Function.comp_def]
+  rw [hids1] at hi
+  obtain ⟨r, hr, rfl⟩ := List.mem_map.mp hi
+  exact negInt_none_of_legal _ (checkRev_legal (phase1_checked h1 r hr))
 
 theorem load_labelKeys {h : Hist} {o : LoadOpts} {m : LMap} (hl : load h o = .ok m) :
     ∀ e ∈ m.labelKeys, e.2 ∈ m.ids := by
@@ -36,14 +57,14 @@ theorem resolveNumber_plain (m : LMap) (n : Nat) (s : String) (hp : Plain s) :
     resolveRevisionNumber m (n + 1) s = .ok ([s], none) := by
   unfold resolveRevisionNumber
   simp only [splitFirstAt_noat s hp.1, bind, Except.bind, pure, Except.pure]
-  simp [hp.2.1, hp.2.2.1, hp.2.2.2]
+  simp [hp.2.1, hp.2.2.1, hp.2.2.2.1]
 
 /-- **A full revision id resolves to that revision.** -/
 theorem full_id (m : LMap) (i : Id) (hi : i ∈ m.ids) (hp : Plain i) :
     getRevisions m i = .ok [some i] ∧ getRevision m i = .ok (some i) := by
   constructor
   · unfold getRevisions resolveFuel
-    simp [resolveNumber_plain m 11 i hp, revisionForIdent_id m 11 i hi, bind, Except.bind, pure, Except.pure]
+    simp [resolveNumber_plain m 11 i hp, revisionForIdent_id m 11 i hi, bind, Except.bind, pure, Except.pure, hp.2.2.2.2]
   · unfold getRevision resolveFuel
     simp [resolveNumber_plain m 11 i hp, revisionForIdent_id m 11 i hi, bind, Except.bind]
 
@@ -58,7 +79,8 @@ theorem plain_sound {h : Hist} {o : LoadOpts} {m : LMap} (hl : load h o = .ok m)
         (x ∈ m.ids ∧ startsWithL x ident = true ∧
           ∀ y ∈ m.ids, y.length > 3 → startsWithL y ident = true → y = x)) := by
   unfold getRevisions resolveFuel at hr
-  simp only [resolveNumber_plain m 11 ident hp, bind, Except.bind, List.mapM_cons, List.mapM_nil, pure, Except.pure] at hr
+  simp only [resolveNumber_plain m 11 ident hp, bind, Except.bind, List.mapM_cons, List.mapM_nil, pure, Except.pure,
+    hp.2.2.2.2] at hr
   cases hq : revisionForIdent m 12 ident none with
   | error e => simp [hq] at hr
   | ok v =>
@@ -126,7 +148,7 @@ theorem prefix_unique_counterexample : ¬ prefix_unique_statement := by
       cases hq : m.lookup "1" with
       | none => rfl
       | some _ => simp [hq] at h2
-    have := hst f13 {} m hl "1" ⟨by decide, by decide, by decide, by decide⟩ "1111" hg hlk "1a" h3 h4
+    have := hst f13 {} m hl "1" ⟨by decide, by decide, by decide, by decide, by decide⟩ "1111" hg hlk "1a" h3 h4
     exact absurd this (by decide)
 
 /-- **The prefix rule at full strength when every revision id has at least four characters**
@@ -168,7 +190,12 @@ theorem symbolic_heads {h : Hist} {o : LoadOpts} {m : LMap} (hl : load h o = .ok
       simp only [List.mapM_cons, bind, Except.bind, pure, Except.pure,
         revisionForIdent_id m 11 a (hl' a List.mem_cons_self), ih (fun x hx => hl' x (List.mem_cons_of_mem _ hx)),
         List.map_cons]
-  exact key m.realHeads hsub
+  have hk := key m.realHeads hsub
+  split
+  · rename_i one heq
+    rw [load_ids_legal hl one (hsub one (by rw [heq]; exact List.mem_cons_self))]
+    exact hk
+  · exact hk
 
 /-! ### relative forms: the walk covers exactly the requested distance -/
 
